@@ -63,7 +63,7 @@ NTPSources = DashOption(
     title='NTP time servers',
     description='List of servers to use for NTP requests',
     from_string=DashOption.list_without_none_from_string,
-    to_string=lambda servers: ','.join(servers),
+    to_string=DashOption.url_text,
     input_type='select',
     cgi_name='ntp_servers',
     cgi_type=f'({"|".join(POOL_NAMES)}|<server>,..)',
